@@ -239,7 +239,7 @@ func (rn *runner) runCase(cs *CaseSpec) error {
 	if nd.HasErrors() || jd.HasErrors() {
 		// the generator only writes well-formed text: a parse error is a harness defect or a finding
 		rn.fail(cs, input, "parse-error", fmt.Sprintf("native: %v; json: %v", nd, jd))
-		rn.cf.Add("mkCase SJust [] (JObj []) false true (ONode [] [] false false) (ONode [] [] false false)")
+		rn.cf.Add("mkCase SJust [] (JObj []) false false true (ONode [] [] false false) (ONode [] [] false false)")
 		rep.Idx(input)
 		rep.Count(input, false)
 		return nil
@@ -248,14 +248,16 @@ func (rn *runner) runCase(cs *CaseSpec) error {
 	on, pn := safeObserve(nf.Body, t, ctx)
 	if pj != nil || pn != nil {
 		rn.fail(cs, input, "panic", fmt.Sprintf("Content: json %v / native %v", pj, pn))
-		rn.cf.Add("mkCase SJust [] (JObj []) false true (ONode [] [] false false) (ONode [] [] false false)")
+		rn.cf.Add("mkCase SJust [] (JObj []) false false true (ONode [] [] false false) (ONode [] [] false false)")
 		rep.Idx(input)
 		rep.Count(input, false)
 		return nil
 	}
 
 	// ---- the Coq case
-	jv, err := coqJValue(cs.JSON, cs.Tmpl)
+	// the document as written: template un-escaping is part of EVALUATION (Body/JsonEncodesCheck.v
+	// json_sem_t), property names read as attribute names / block types / labels are not templates
+	jv, err := coqJValue(cs.JSON, false)
 	if err != nil {
 		return fmt.Errorf("reading back JSON text: %v\n%s", err, cs.JSON)
 	}
@@ -263,7 +265,7 @@ func (rn *runner) runCase(cs *CaseSpec) error {
 	ojc, onc := oj.coq(info), on.coq(info)
 	skip := cs.Cfg.inexact() || info.Unsupported || cs.Known != ""
 	adm := cs.Adm && cs.Known == ""
-	rn.cf.Add(fmt.Sprintf("mkCase %s\n %s\n %s\n %s %s\n %s\n %s", t.coq(), cs.Cfg.coq(), jv, hv.CoqBool(adm), hv.CoqBool(skip), ojc, onc))
+	rn.cf.Add(fmt.Sprintf("mkCase %s\n %s\n %s\n %s %s %s\n %s\n %s", t.coq(), cs.Cfg.coq(), jv, hv.CoqBool(cs.Tmpl), hv.CoqBool(adm), hv.CoqBool(skip), ojc, onc))
 	rep.Idx(input)
 	rep.Count(input, cs.Cfg.nblocks() > 0)
 	if len(input) < 700 {
@@ -709,7 +711,7 @@ func runC03(cfg *hv.RunCfg) error {
 	cf := &hv.CaseFile{Dir: cfg.Out, Name: "c03cases",
 		Imports: "From Coq Require Import QArith String.\nFrom HclV Require Import Base.Prelude Body.Laws Body.Native Body.Json Cty.Values Body.JsonEncodes Body.JsonEncodesCheck.",
 		Ctype:   "c03case", Checker: "check_c03_cases",
-		Extras:  [][2]string{{"applicable", "c03_applicable"}}}
+		Extras: [][2]string{{"applicable", "c03_applicable"}}}
 	rn := &runner{rep: rep, cf: cf}
 	g := &gen{r: hv.NewRng(cfg.Seed, 3), feat: map[string]int{}, hist: map[string]bool{}}
 
